@@ -82,7 +82,7 @@ func (w *World) probeSuite(n *Node, tag string) bool {
 				}
 			}
 		}},
-		{"truncate", func() error { n.Book.VerifTruncate(ctx); return nil }},
+		{"truncate", func() error { w.noteTruncErr(n.Idx, n.Book.VerifTruncate(ctx)); return nil }},
 	}
 	for _, o := range ops {
 		var res StepResult
@@ -196,7 +196,7 @@ func wedgeScenario(w *World, p *Plan, rec *Record) {
 						}
 					}
 				default:
-					n.Book.VerifTruncate(cctx)
+					w.noteTruncErr(n.Idx, n.Book.VerifTruncate(cctx))
 				}
 				return nil
 			})
@@ -296,6 +296,7 @@ func wedgeScenario(w *World, p *Plan, rec *Record) {
 	for _, o := range w.stuck {
 		w.violate("C08", "no-return", opKind(o.name), o.node, "operation %s did not return", o.name)
 	}
+	w.checkFatal(w.Faults["disk-error"] > 0)
 	rec.Nontrivial = w.Probes["c08-early-exit-or-cancel"] > 0 || w.Probes["c08-stream-consumed"] > 0
 	rec.Sample = samples
 	_ = accountant.ErrBreak
@@ -315,6 +316,11 @@ func init() {
 		}
 		if r.Chance(0.15) {
 			cfg.SupplyCur = ^uint64(0) - uint64(r.Intn(3))
+		}
+		if cfg.TruncateDiff > 0 && r.Chance(0.4) {
+			// the weight-triggered truncation loop runs as well, racing with the cancelled operations
+			cfg.TruncateDiff = uint64(2 + r.Intn(3))
+			cfg.TruncateAt = 2*cfg.TruncateDiff + uint64(r.Intn(3))
 		}
 		return &Plan{Scenario: "wedge", Cfg: cfg}
 	}
